@@ -319,6 +319,18 @@ func runC25(p *core.Prog, r *core.Report) {
 	} else {
 		core.CheckSuccessFn(p, r8, vs, core.SuccessRule{ResultIdx: -1, MinReturns: 1, Guards: []core.Guard{core.G("stored-locally", core.ErrNil, putP+"putObjectLocally")}})
 	}
+	// ---------------- R9 the remote leaf: a node counts only if the whole stream to it succeeded
+	r9 := r.Rule("C25.R9", "putObjectToNode (the remote leaf of a send made by a node outside the container) reports success only after the stream was opened, the header and the payload were written and the stream was closed, each without error: the SDK writer returns a peer's refusal from Write and then answers Close with nil", 1)
+	if pn := p.Func(putP + "putObjectToNode"); pn == nil {
+		r.Fatalf("C25.R9: putObjectToNode not found")
+	} else {
+		gs := []core.Guard{
+			{Name: "payload-written", Match: func(s core.Site) bool { return s.Call.Common().IsInvoke() && s.Call.Common().Method.Name() == "Write" }, Comps: []core.Comp{{Result: 1, Kind: core.ErrNil}}},
+			{Name: "stream-closed", Match: func(s core.Site) bool { return s.Call.Common().IsInvoke() && s.Call.Common().Method.Name() == "Close" }, Comps: []core.Comp{{Result: -1, Kind: core.ErrNil}}},
+		}
+		core.CheckSuccessFn(p, r9, pn, core.SuccessRule{ResultIdx: -1, MinReturns: 1, Guards: gs})
+	}
+	r.Explain += " (R9) the remote leaf: putObjectToNode returns nil only after the payload Write and the Close of the stream both returned nil."
 	r.Explain += " (R8) the local leaf: putObjectLocally returns nil only after the local storage's Put returned nil, and ValidateAndStoreObjectLocally (the receiving side of replication) only through it, so a node that refused the object (already removed, locked, no space) is never counted as a holder."
 }
 
